@@ -108,7 +108,7 @@ def pshow(p):
 
 
 def sk(t):
-    return re.sub(r'#\d+\.\d+', '', show(t))
+    return re.sub(r'#(?:i\d+:)?\d+\.\d+', '', show(t))
 
 
 EVAL = 'yui_kh::kh::internal::v2::cob::CobComp::part_eval::eval'
@@ -607,7 +607,7 @@ def check_shortcuts(facts, rep, dt):
             others = [(t, v, a) for (t, v, a) in conds if sk(t).replace('&', '').replace('*', '') not in ('is_zero_cob(arg1)', 'should_part_eval(arg1)')]
             # the product over the components written as an explicit loop: iterator bookkeeping is not a shortcut condition
             loop_form = False
-            rs = re.sub(r'#\d+\.\d+', '', show(ret, -1000))
+            rs = re.sub(r'#(?:i\d+:)?\d+\.\d+', '', show(ret, -1000))
             if re.match(r'(from\(empty\(\)\)|combine\()', rs) and all(re.match(r'discr\(next\(', sk(t)) for t, v, a in others) \
                     and (rs.startswith('from(empty())') or 'part_eval(' in rs):
                 loop_form = True
